@@ -9,45 +9,13 @@ NOTE = ("Trusted base: Coq 8.16.1 kernel (vm_compute in closed-term lemmas, no n
         "extraction with ExtrOcamlBasic only + ocamlopt; ocaml/driver.ml; the Python harness (generation, encoding, "
         "canonicalisation); tools/py2v.py for generated units. The theorems are about hand-written Gallina models; the "
         "models are tied to /repo by the correspondence run of this check (and by the translator where stated). ")
-CLAIMED = {
- 'C15': dict(cat='proof', tech='Coq theorems over a Gallina model of AllowOverhang / LevelOverhang for an ARBITRARY proportional evaluator (loop minimality by induction, zero-without-overhang, non-negativity) + the C01 highest-averages accounting theorem for the final distribution + extraction-based correspondence and independent searches on the implementation',
-             text='For every evaluator E, house size and direct-seat map: AllowOverhang = number of overhang seats (>= 0, zero iff none); the levelling loop returns the first house size satisfying every minimum (all smaller sizes fail), zero without tier overhang, never negative; the final highest-averages distribution never removes a direct seat. Model tied to core.py by differential runs with D\'Hondt, Sainte-Lague and Hare LR (incl. Alabama-paradox profiles and the NZ/DE MultistageDistributor shape); LevelOverhangByConstituency is checked against an independent search. Two defects (KeyError, AttributeError) were repaired by fix: commits.',
-             ref='DESIGN.md 3 C15', note='Modelled, not verified: AllowOverhang.calculate, LevelOverhang.calculate, AdjustedSeatCount.evaluate (Model/Overhang.v). No model: LevelOverhangByConstituency (reference search on the implementation). Reading of the levelling rule fixed in DESIGN.md (first test at the full house).'),
- 'C12': dict(cat='proof', tech='Coq theorems over Gallina models of PAV (complete committee scan, unique maximiser), SPAV rounds, score aggregation / ScoreVoting / MajorityJudgment + extraction-based correspondence + independent Python references (PAV brute force, JR, STAR run-off, allocated score)',
-             text='For every approval profile and seat count: the combinations scan enumerates exactly the n-subsets, the PAV committee is the unique maximiser of the harmonic satisfaction (refusal iff not unique), each SPAV round elects the strictly best reweighted candidate; score voting = get_n_best of the exact aggregate. ScoreToSimpleVotes (unscored None/const/min, min_count, truncation), ScoreVoting, both MJ tie-breakers are modelled and compared with the code on random profiles; PAV JR, STAR and allocated score are checked against independent references. The PAV single-seat IndexError was repaired by a fix: commit; three crash classes are known findings.',
-             ref='DESIGN.md 3 C12', note='Modelled, not verified: approval.py PAV/SPAV, convert.ScoreToSimpleVotes, cardinal.ScoreVoting/MajorityJudgment (Model/Cardinal.v). No Coq model: STAR, AllocatedScore (reference checks only). Partial: JR, MJ tie-break defining clauses, STAR, allocated score are checker-decided.'),
- 'C03': dict(cat='proof', tech='Coq invariant proofs (induction over the counts of any run) on a Gallina model of the Gregory STV count + count-by-count extraction-based correspondence driving the implementation through next_count, with invariant checkers on the real allocations',
-             text='Proved for every profile/configuration and EVERY reachable count: exact conservation (votes held + one quota per quota seat = votes cast), duplicate-free allocation keys, non-negative seats; transfer and initial allocation conserve weight; transfers/subtractions never produce negative weights; election rule (each quota seat backed by a full quota, distinct candidates); transfer targets are continuing candidates. The model is tied to sequential.py/transfer.py by comparing the totals and newly elected after every count on random profiles (shared ranks, exhausted-heavy, zero-first-preference) and by evaluating conservation / non-negativity / resting place / election and elimination rules on the real allocations. The exhausted-pile-as-contender defect was found this way and repaired by a fix: commit.',
-             ref='DESIGN.md 3 C03', note='Modelled, not verified: TransferableVoteDistributor/Selector, initial_allocation, ranked_next, SimpleVoteTransferer, Gregory (Model/STV.v). Partial: resting-place invariant (I3) and the elimination-count rule are decided per explored case on the implementation, not yet theorems; Hare (random) transfers are covered only by implementation-side invariant checks with seeds.'),
- 'C04': dict(cat='proof', tech='Coq theorems on the STV model (a finished run fills exactly n seats; shortcut exactness) + extraction-based correspondence where the proved model serves as the independent weighted-inclusive-Gregory reference + brute-force PSC/majority checker over all candidate subsets',
-             text='For every profile and configuration: a run that ends without refusal has filled exactly the requested seats; the elect-all-remaining shortcut fires only when free seats equal open seats. Final outcomes and refusals of TransferableVoteSelector/Distributor are compared with the model on random profiles; PSC (every subset, every k), majority and exact-count clauses are evaluated on every implementation outcome (Gregory and seeded Hare). PSC and majority are stated in full (C04_psc_full_statement) but not yet proved: partial.',
-             ref='DESIGN.md 3 C04', note='Modelled, not verified: as C03. Partial: PSC, majority, distinctness of winners under caps are checker-decided per case. Known limitation recorded in DESIGN.md: shared ranks lose their share on elimination (ranked_next skips co-ranked candidates).'),
- 'C13': dict(cat='proof', tech='Coq theorems about the accumulating-fold shape of every converter (additivity, per-ballot image, order-freedom, weight conservation; any profile, any image) + extraction-based correspondence of 15 modelled converters and impl-side additivity checks on all profile splits',
-             text='For the fold [conv image] that every modelled converter instantiates: conv(A++B) = conv(A)+conv(B), single-ballot image, value = weighted sum of images, ballot-order independence and weight conservation for one-item images are proved for all profiles and all images at once (keys compared by a proved-correct structural equality). The images (first preference, approved set, positional scores for six rank scorers, ordered pairs with unranked-at-bottom, sub-rankings, parties, ...) are tied to convert.py / vote.py / rankscore.py by differential runs, and additivity is also evaluated on the implementation for all splits of small profiles. Four defects found this way (TypeError in two converters, lost votes, multi-character names) were repaired by fix: commits.',
-             ref='DESIGN.md 3 C13', note='Modelled, not verified: the converters of convert.py listed in harness/props/c13.py KINDS. Impl-side checks only: VoteTotals, ConstituencyTotals, InvertedSimpleVotes, Chain. Not covered: RoundedVotes (not additive by nature), GroupVotesByParty, first-n images containing shared ranks.'),
- 'C20': dict(cat='proof', tech='Coq iff-theorems (acceptance <-> declarative rule) over a Gallina model of the five validators, three nominators, the magnitude checker and InvalidVoteEliminator, for every object of the ballot grammar and every configuration + extraction-based correspondence over the grammar',
-             text='validate = Ok <-> declarative rule proved for Simple, Approval, Ranked and both Score validators over the full object grammar (wrong containers, nested collections, numbers, None, every candidate kind) and all bound/nominator configurations; the filter theorem for InvalidVoteEliminator; no-crash theorems for simple/approval. Model tied to vote.py/candidate.py/convert.py by a grammar-driven differential run (frozensets encoded in CPython iteration order so that even the error kind is compared). A genuine defect (score ballot naming a candidate twice accepted) was repaired by a fix: commit; the eliminator re-raising CandidateError is a known finding.',
-             ref='DESIGN.md 3 C20', note='Modelled, not verified: vote.py validators, candidate.py nominators, convert.InvalidVoteEliminator (Model/Validate.v). Crash-freedom for ranked/score validators holds only for hashable items and numeric scores (stated in the iff theorems; non-numeric scores are outside the quantifier).'),
- 'C05': dict(cat='proof', tech='Coq theorem (Copeland elects the Condorcet winner, for all pairwise dictionaries) over Gallina models of all ten condorcet.EVALUATORS entries + extraction-based correspondence and brute-force references for the clauses not yet proved',
-             text='Proved for every pairwise dictionary: Copeland (raw and second order) returns exactly the Condorcet winner for one seat; the win-loss score characterisation. All other evaluators (Schulze, minimax x3, ranked pairs x3, Kemeny) are modelled faithfully (0 disagreements) and their Condorcet-winner / Smith / nobody-dropped clauses are decided per explored case against brute-force references - stated as partial. Four candidate-dropping / sparse-dictionary defects found by the check were repaired with fix: commits.',
-             ref='DESIGN.md 3 C05', note='Modelled, not verified: condorcet.py evaluators and pairwin_scorer.py (Model/Condorcet.v). Partial: only the Copeland clause is a theorem; Benham/TidemanAlternative not covered yet.'),
- 'C06': dict(cat='proof', tech='Coq theorems over Gallina models of CondorcetWinner and the Smith/Schwartz prefix routine (all pairwise dictionaries) + exhaustive small-domain correspondence + brute-force references; Schwartz clause refuted by a machine-checked counterexample',
-             text='CondorcetWinner returns exactly the candidate beating all others (iff, uniqueness) for every pairwise dictionary incl. sparse ones; the Smith/Schwartz routine returns a non-empty Copeland-order prefix and its single sorted pass is complete (closure theorem). Domination/minimality of the Smith output is decided per case against a brute-force reference over all candidate subsets (exhaustive for <=3 candidates, every relation shape). The Schwartz clause is false of the faithful model (C06_schwartz_refuted): known finding C06-schwartz. The sparse-dictionary Smith defect was repaired by a fix: commit.',
-             ref='DESIGN.md 3 C06', note='Modelled, not verified: pairwise_wins, beat_counts, CondorcetWinner, _smith_schwartz_set (Model/Condorcet.v). Partial: Smith domination+minimality not yet a theorem.'),
- 'C16': dict(cat='proof', tech='Coq theorems over Gallina models of the threshold selectors, QuotaSelector and ThresholdOpenList (all inputs, all configurations) + extraction-based correspondence with on-threshold generators',
-             text='Membership characterisations (exact share vs threshold, accept_equal, union for alternatives, any nesting), the closed form of the open-list fill-up loop, exactly-n-distinct-members, jumpers-first-by-votes and no-leapfrog are proved for every input; models tied to threshold.py/openlist.py/approval.py by differential runs whose generators put a candidate exactly on every threshold. Two boundary defects found by the check were repaired with fix: commits.',
-             ref='DESIGN.md 3 C16', note='Modelled, not verified: threshold.py selectors and bracketers, openlist.ThresholdOpenList, Tie.break_by_list, approval.QuotaSelector. Bracketers and break_by_list are tied by correspondence only (no theorem yet).'),
- 'C02': dict(cat='proof', tech='Coq theorems over Gallina models of the quota functions (regenerated from quota.py and proved equal to textbook values), QuotaDistributor and LargestRemainder + extraction-based correspondence; capped clause refuted by a machine-checked counterexample',
-             text='Textbook quota values proved for all votes>=0, seats>=1 against the code generated from quota.py (incl. round-half-up); whole-quota stage, the three over-award policies, the remainder stage (= get_n_best on exact remainders, at most one seat per party, exact total) proved for every input on the domain where no whole-quota count exceeds a cap. The capped clause is false of the faithful model (C02_caps_refuted, C02_lr_caps_refuted): recorded as known findings C02-capbranch / C02-lr-caps and C02-lr-underfill; two defects repaired by fix: commits.',
-             ref='DESIGN.md 3 C02', note='Modelled, not verified: QuotaDistributor.evaluate/_subtract_overaward, LargestRemainder.evaluate (Model/QuotaDistributor.v). Generated from source: component/quota.py. Not modelled: a second tie inside _subtract_overaward (cases skipped and counted).'),
- 'C01': dict(cat='proof', tech='Coq invariant proof over a Gallina model of HighestAverages.evaluate (all votes, seats, divisors, prev_gains, caps) + translator tie for divisor.py + extraction-based correspondence',
-             text='Loop invariant (sorted duplicate-free exact quotient list, caps, optimality of every awarded seat against every remaining claim, seat accounting, tie exactness) proved by induction over the loop for every input and every positive non-decreasing divisor; the five built-in divisors and modified_first_coef wrappers are proved to satisfy the hypothesis and are regenerated from divisor.py on every run (GenTie lemmas). evaluate() itself is tied by differential runs (exhaustive small domain, random, constructed quotient ties, zero-vote/cap stream, 1e30 magnitudes).',
-             ref='DESIGN.md 3 C01', note='Modelled, not verified: HighestAverages.evaluate (Model/HighestAverages.v). Generated from source: component/divisor.py.'),
- 'C09': dict(cat='proof', tech='Coq theorems over a Gallina model of get_n_best (all mappings, all n) + extraction-based correspondence with core.get_n_best / Plurality',
-             text='get_n_best_spec / no_inversion / tie_members / stable-sort theorems hold for every list of (candidate, rational) pairs and every n>=1 (Coq, closed under the global context); the model is tied to the code by an exhaustive small-domain plus random differential run on every check.',
-             ref='DESIGN.md 3 C09', note='Modelled, not verified: util.sorted_votes, core.get_n_best, Plurality.evaluate (Model/GetNBest.v).'),
-}
+CLAIMED = {}
+for f in sorted(os.listdir(os.path.join(V, 'tools', 'claims'))):
+    if f.endswith('.json'):
+        CLAIMED[f[:-5]] = json.load(open(os.path.join(V, 'tools', 'claims', f)))
 REASONS = {}
+if os.path.exists(os.path.join(V, 'tools', 'not_applicable.json')):
+    REASONS = json.load(open(os.path.join(V, 'tools', 'not_applicable.json')))
 props = [json.loads(l) for l in open(os.path.join(V, 'properties.jsonl'))]
 checks, na = [], []
 for p in props:
